@@ -85,6 +85,13 @@ partial def parseInps : Nat → List Nat → Option (List Inp)
       else (parseInps n rest').map (fun is => ⟨w, mode, kind, none, []⟩ :: is)
     | _ => none
 
+/-- the lexemes at the leaves lie in the input in tree order: each starts at or after the end of the
+one before (inserted lexemes have zero length at their insertion point) — otherwise the span "from
+the first to the last lexeme derived" would not even be a span -/
+def leavesInOrder : List (Nat × Nat) → Bool
+  | a :: b :: rest => a.2 ≤ b.1 && leavesInOrder (b :: rest)
+  | _ => true
+
 def handle (args : List Nat) : String :=
   match parseGrammar args with
   | none => "bad-request"
@@ -107,7 +114,9 @@ def handle (args : List Nat) : String :=
           match i.tree with
           | none => none
           | some t =>
-            if logOk i.log (specCalls G lexSpan t) then none
+            if !leavesInOrder (leafSpans lexSpan t) then
+              some s!"V fail lexemes-at-the-leaves-not-in-input-order input={k} mode={i.mode} w={i.w} spans={leafSpans lexSpan t}"
+            else if logOk i.log (specCalls G lexSpan t) then none
             else some s!"V fail action-log-does-not-match-tree input={k} mode={i.mode} w={i.w}")
         "\n".intercalate ((if vs.isEmpty then ["V ok"] else vs) ++ ms)
     | _ => "bad-request"
